@@ -14,6 +14,11 @@ CONSTANTS
   RestoreOnReturn = FALSE
   EmbRestoreAll = TRUE
   SuperCheckFirst = TRUE
+  GuardCanonical = TRUE
+  RegisterAfterCreate = TRUE
+  NsCachesInit = TRUE
+  EmbNullChecked = TRUE
+  OverflowWrapped = TRUE
 INVARIANT TypeOK
 INVARIANT ImplRefinesReq
 INVARIANT PositionFileOK
